@@ -136,6 +136,8 @@ def _from_z3(t):
             return mul(num, inv)
         if not den:
             return _atom(t)
+        if num == den:
+            return const(1)
         # quotient by a proper polynomial: numerator times an opaque inverse atom
         inv = _atom(z3.RealVal(1) / ch[1])
         return mul(num, inv)
